@@ -89,7 +89,9 @@ def _fr(x):
     if isinstance(x, (int, Fr)):
         return Fr(x)
     if isinstance(x, float):
-        return Fr(x)
+        # a float met by the symbolic run is a literal / constant of the source: read it as the decimal it denotes
+        # (32.184, 1e-6, 86400.0 ...) -- the exact-real model of the arithmetic the code intends
+        return Fr(repr(x)) if x == x and abs(x) != float("inf") else Fr(x)
     raise TypeError(type(x))
 
 
@@ -131,6 +133,9 @@ class SB:
         d.trace.append(v)
         d.pc.append(self.t if v else z3.Not(self.t))
         return v
+
+    def __index__(self):
+        return 1 if bool(self) else 0
 
     def __and__(self, o):
         return SB(z3.And(self.t, _sbt(o)))
